@@ -1,10 +1,19 @@
 (* C19 -- PeriodicDiskRevolve really is periodic, with a period independent of n
    Property theorems only: each proof is one application of a lemma proved in Proofs/, followed by Print Assumptions. *)
 From Coq Require Import ZArith List Bool.
-From CS Require PeriodProofs PeriodShape SeqGenSpec.
+From CS Require PeriodProofs PeriodShape SeqGenSpec MxrrGenSpec.
 From CS Require Import Actions NAdvance Multistage Exec Sched RunFacts Projections BasicInv MultistageRun AllocTotal TLBridge MixBridge.
 Import ListNotations.
 Open Scope Z_scope.
+
+(* THE PERIOD FORMULA IS THE SOURCE: MxrrGenSpec.mxrr_shape is the Gallina function harness/translate.py renders from mxrr_close_formula (periodic_disk_revolve.py) and beta (basic_functions.py): t = 0; while beta(cm + 1, t) <= (wd + rd) / uf: t += 1; return int(beta(cm, t)) -- with the floating-point test a <= b / uf read as the exact a * uf <= b (uf > 0) and the factorial quotient as the binomial coefficient BinomDef.beta (the trusted reading, DESIGN 10); Gen/MxrrGen.v re-translates the current source on every run and proves the result equal to that term by conversion.  For every cm >= 0 and all costs it is RevSeq.mxrr, the period of C19_period_closed_form and of every PeriodicDiskRevolve theorem *)
+Module M_C19_period_is_source.
+Import MxrrGenSpec.
+Theorem C19_period_is_source :
+  forall cm uf rd wd : Z, 0 <= cm -> mxrr_shape cm uf rd wd = RevSeq.mxrr cm uf rd wd.
+Proof. exact (@MxrrGenSpec.mxrr_shape_is_model). Qed.
+Print Assumptions C19_period_is_source.
+End M_C19_period_is_source.
 
 (* THE SEQUENCE GENERATORS ARE THE SOURCE: SeqGenSpec.revolve_shape / disk_revolve_shape / periodic_shape are the Gallina functions harness/translate.py (SeqTr) renders from revolve(), disk_revolve() and periodic_disk_revolve() of hrevolve_sequences/ -- every sequence.insert(operation(..)) appends one operation, insert_sequence(f(..).shift(k)) a recursively built list, the loops become for_down / while_, reads of the tables tget / lget with IndexError; Gen/SeqGen.v re-translates the current source on every run and proves the result equal to these terms by conversion.  They are proved equal, for all arguments, to the extracted RevSeq.revolve / RevSeq.disk_revolve / the body of RevSeq.periodic_top, on which every theorem about the Revolve family is stated; this is the top-level call of the constructor (RevConv.sequence) read on the translated source.  Not translated: the tables (get_opt_0_table, get_opt_inf_table), mxrr_close_formula and the Sequence / Operation classes of basic_functions.py (their flattening, shift and remove_useless_wm are Ops.v) *)
 Module M_C19_periodic_sequence_is_source.
